@@ -1,103 +1,268 @@
 package main
 
 import (
+	"encoding/json"
 	"flag"
 	"fmt"
 	"os"
 	"path/filepath"
 	"sort"
+	"strconv"
 	"strings"
 	"time"
-
-	"golang.org/x/tools/go/packages"
-	"golang.org/x/tools/go/ssa"
-	"golang.org/x/tools/go/ssa/ssautil"
 )
 
-func main() {
-	repo := flag.String("repo", "/repo", "repository root")
-	pkg := flag.String("pkg", "", "package pattern relative to repo (e.g. ./reader)")
-	hdir := flag.String("harness", "", "directory with harness .go files to overlay into the package dir")
-	entry := flag.String("entry", "", "comma separated harness function names")
-	unwind := flag.Int("unwind", 40, "unwind bound per loop header per frame")
-	z3 := flag.String("solver", "z3", "solver binary")
-	logf := flag.String("smtlog", "", "write SMT script here")
-	trace := flag.Bool("trace", false, "trace instructions")
-	flag.Parse()
+const verifRoot = "/verif"
 
-	t0 := time.Now()
-	overlay := map[string][]byte{}
-	pkgDir := filepath.Join(*repo, *pkg)
-	files, _ := filepath.Glob(filepath.Join(*hdir, "*.go"))
-	for _, f := range files {
-		b, err := os.ReadFile(f)
-		if err != nil {
-			panic(err)
-		}
-		overlay[filepath.Join(pkgDir, "zz_verif_"+filepath.Base(f))] = b
-	}
-	cfg := &packages.Config{Mode: packages.LoadAllSyntax, Dir: *repo, Overlay: overlay, Env: append(os.Environ(), "GOFLAGS=-mod=mod", "GOPROXY=off", "GOSUMDB=off", "GOTOOLCHAIN=local")}
-	pkgs, err := packages.Load(cfg, *pkg)
-	if err != nil {
-		panic(err)
-	}
-	if packages.PrintErrors(pkgs) > 0 {
+// JobResult is what one executor process reports about one harness entry.
+type JobResult struct {
+	Pkg         string            `json:"pkg"`
+	HarnessDir  string            `json:"harness_dir"`
+	Entry       string            `json:"entry"`
+	Split       int               `json:"split"`
+	Paths       int               `json:"paths"`
+	PathEnds    map[string]int    `json:"path_ends"`
+	Instrs      int               `json:"instrs"`
+	Forks       int               `json:"forks"`
+	Queries     int               `json:"queries"`
+	Sat         int               `json:"sat"`
+	Unsat       int               `json:"unsat"`
+	Unknown     int               `json:"unknown"`
+	SolverErrs  int               `json:"solver_errors"`
+	PreHits     int               `json:"presolver_hits"`
+	SolverSecs  float64           `json:"solver_s"`
+	MaxQuerySec float64           `json:"max_query_s"`
+	WallSecs    float64           `json:"wall_s"`
+	LoadSecs    float64           `json:"load_s"`
+	MaxVisit    int               `json:"max_loop_visits"`
+	UnwindHit   int               `json:"unwind_hit"`
+	Unwind      int               `json:"unwind"`
+	Unsupported map[string]int    `json:"unsupported"`
+	Violations  []Violation       `json:"violations"`
+	Reached     map[string]int    `json:"reached"`
+	Funcs       []string          `json:"funcs"`
+	Notes       map[string]int    `json:"notes"`
+	Params      map[string]int64  `json:"params"`
+	Known       []string          `json:"known"`
+	Fatal       string            `json:"fatal,omitempty"`
+	Stopped     bool              `json:"stopped,omitempty"`
+	Replaced    map[string]string `json:"replaced,omitempty"`
+}
+
+func main() {
+	if len(os.Args) < 2 {
+		fmt.Fprintln(os.Stderr, "usage: gosmt run|check|replay|selftest ...")
 		os.Exit(2)
 	}
-	prog, spkgs := ssautil.AllPackages(pkgs, ssa.InstantiateGenerics)
-	prog.Build()
-	loadT := time.Since(t0)
-
-	var log *os.File
-	if *logf != "" {
-		log, _ = os.Create(*logf)
-		defer log.Close()
+	switch os.Args[1] {
+	case "run":
+		os.Exit(cmdRun(os.Args[2:]))
+	case "check":
+		os.Exit(cmdCheck(os.Args[2:]))
+	case "replay":
+		os.Exit(cmdReplay(os.Args[2:]))
+	case "selftest":
+		os.Exit(cmdSelftest(os.Args[2:]))
 	}
+	fmt.Fprintln(os.Stderr, "unknown command", os.Args[1])
+	os.Exit(2)
+}
+
+type kvFlag map[string]int64
+
+func (k kvFlag) String() string { return "" }
+func (k kvFlag) Set(s string) error {
+	i := strings.IndexByte(s, '=')
+	if i < 0 {
+		return fmt.Errorf("want k=v")
+	}
+	v, err := strconv.ParseInt(s[i+1:], 0, 64)
+	if err != nil {
+		return err
+	}
+	k[s[:i]] = v
+	return nil
+}
+
+// cmdRun executes harness entries in this process and prints / writes the results.
+func cmdRun(args []string) int {
+	fs := flag.NewFlagSet("run", flag.ExitOnError)
+	repo := fs.String("repo", "/repo", "repository root")
+	pkg := fs.String("pkg", "", "package directory relative to repo (e.g. ./reader)")
+	hdir := fs.String("harness", "", "harness directory (absolute, or relative to /verif/harness)")
+	entry := fs.String("entry", "", "comma separated harness function names")
+	unwind := fs.Int("unwind", 40, "unwind bound per loop header per frame")
+	z3 := fs.String("solver", "z3", "solver binary")
+	logf := fs.String("smtlog", "", "write SMT script here")
+	trace := fs.Bool("trace", false, "trace instructions")
+	split := fs.Int("split", -1, "value returned by verifSplit (-1: fork)")
+	known := fs.String("known", "", "comma separated ids of open known findings")
+	jsonOut := fs.String("json", "", "write results as JSON here")
+	seed := fs.Int("seed", 0, "solver random seed")
+	qto := fs.Int("qtimeout", 20000, "per-query timeout in ms")
+	maxPaths := fs.Int("maxpaths", 2000000, "stop after this many paths (reported as incomplete)")
+	fatalViol := fs.Bool("fatal-is-violation", false, "log.Fatal/os.Exit reachable counts as a violation")
+	params := kvFlag{}
+	fs.Var(params, "param", "k=v harness parameter (repeatable)")
+	fs.Parse(args)
+
+	hd := *hdir
+	if !filepath.IsAbs(hd) {
+		hd = filepath.Join(verifRoot, "harness", hd)
+	}
+	t0 := time.Now()
+	ld, err := Load(*repo, *pkg, hd)
+	var results []JobResult
 	exit := 0
-	for _, name := range strings.Split(*entry, ",") {
-		fn := spkgs[0].Func(name)
-		if fn == nil {
-			fmt.Println("no such harness:", name)
-			os.Exit(2)
+	if err != nil {
+		for _, name := range strings.Split(*entry, ",") {
+			results = append(results, JobResult{Pkg: *pkg, HarnessDir: hd, Entry: name, Split: *split, Fatal: "load: " + err.Error()})
 		}
-		var sol *Solver
-		if log != nil {
-			sol, err = NewSolver(*z3, 0, log)
-		} else {
-			sol, err = NewSolver(*z3, 0, nil)
+		fmt.Println("LOAD FAILED:", err)
+		exit = 2
+	} else {
+		loadT := time.Since(t0)
+		var log *os.File
+		if *logf != "" {
+			log, _ = os.Create(*logf)
+			defer log.Close()
 		}
-		if err != nil {
-			panic(err)
-		}
-		sol.Prof = map[string]int{}
-		ex := NewExec(prog, sol, *unwind)
-		ex.trace = *trace
-		t1 := time.Now()
-		ex.RunHarness(fn)
-		el := time.Since(t1)
-		fmt.Printf("== %s: paths=%d forks=%d instrs=%d infeasible=%d unwindHit=%d maxVisit=%d queries=%d (sat %d unsat %d unknown %d) solver=%.2fs wall=%.2fs load=%.2fs\n",
-			name, ex.Paths, ex.Forks, ex.Instrs, ex.Infeasible, ex.UnwindHit, ex.MaxVisit, sol.Queries, sol.Sat, sol.Unsat, sol.Unknown, sol.Time.Seconds(), el.Seconds(), loadT.Seconds())
-		var ks []string
-		for k := range ex.Unsupp {
-			ks = append(ks, k)
-		}
-		sort.Strings(ks)
-		for _, k := range ks {
-			fmt.Printf("   UNSUPPORTED x%d: %s\n", ex.Unsupp[k], k)
-			exit = 2
-		}
-		for _, v := range ex.Violations {
-			fmt.Printf("   VIOLATION %s: %s at %s\n      model: %v\n", v.Kind, v.Msg, v.Where, v.Model)
-			if exit == 0 {
-				exit = 1
+		for _, name := range strings.Split(*entry, ",") {
+			r := runEntry(ld, name, hd, *pkg, *unwind, *z3, *seed, *qto, log, *trace, *split, params, *known, *maxPaths, *fatalViol)
+			r.LoadSecs = loadT.Seconds()
+			results = append(results, r)
+			printResult(r)
+			if e := resultExit(r); e > exit {
+				exit = e
 			}
 		}
-		type kv struct{k string; v int}
-		var kvs []kv
-		for k, v := range sol.Prof { kvs = append(kvs, kv{k, v}) }
-		sort.Slice(kvs, func(i, j int) bool { return kvs[i].v > kvs[j].v })
-		for i := 0; i < len(kvs) && i < 25; i++ { fmt.Printf("   Q x%d %s\n", kvs[i].v, kvs[i].k) }
-		sol.Close()
 	}
-	os.Exit(exit)
+	if *jsonOut != "" {
+		b, _ := json.MarshalIndent(results, "", " ")
+		os.WriteFile(*jsonOut, b, 0644)
+	}
+	return exit
+}
+
+func resultExit(r JobResult) int {
+	if r.Fatal != "" || len(r.Unsupported) > 0 || r.UnwindHit > 0 || r.Unknown > 0 || r.Stopped {
+		return 2
+	}
+	if len(r.Violations) > 0 {
+		return 1
+	}
+	return 0
+}
+
+func runEntry(ld *Loaded, name, hd, pkg string, unwind int, z3 string, seed, qto int, log *os.File, trace bool, split int, params kvFlag, known string, maxPaths int, fatalViol bool) (r JobResult) {
+	r = JobResult{Pkg: pkg, HarnessDir: hd, Entry: name, Split: split, Unwind: unwind}
+	fn := ld.main.Func(name)
+	if fn == nil {
+		r.Fatal = "no such harness function: " + name
+		return
+	}
+	var sol *Solver
+	var err error
+	if log != nil {
+		sol, err = NewSolver(z3, seed, qto, log)
+	} else {
+		sol, err = NewSolver(z3, seed, qto, nil)
+	}
+	if err != nil {
+		r.Fatal = "solver: " + err.Error()
+		return
+	}
+	curSolver = sol
+	defer func() { curSolver = nil; sol.Close() }()
+	ex := NewExec(ld, sol, unwind)
+	ex.trace = trace
+	ex.splitIdx = split
+	ex.maxPaths = maxPaths
+	ex.fatalIsViolation = fatalViol
+	for k, v := range params {
+		ex.params[k] = v
+	}
+	for _, k := range strings.Split(known, ",") {
+		if k != "" {
+			ex.known[k] = true
+			r.Known = append(r.Known, k)
+		}
+	}
+	t1 := time.Now()
+	func() {
+		defer func() {
+			if rec := recover(); rec != nil {
+				if e, ok := rec.(execErr); ok {
+					r.Fatal = e.msg
+					return
+				}
+				r.Fatal = fmt.Sprint("executor panic: ", rec)
+			}
+		}()
+		ex.RunHarness(fn)
+	}()
+	r.WallSecs = time.Since(t1).Seconds()
+	r.Paths, r.PathEnds, r.Instrs, r.Forks = ex.Paths, ex.PathEnds, ex.Instrs, ex.Forks
+	r.Queries, r.Sat, r.Unsat, r.Unknown, r.SolverErrs, r.PreHits = sol.Queries, sol.Sat, sol.Unsat, sol.Unknown, sol.Errors, sol.PreHits
+	r.SolverSecs, r.MaxQuerySec = sol.Time.Seconds(), sol.MaxQ.Seconds()
+	r.MaxVisit, r.UnwindHit = ex.MaxVisit, ex.UnwindHit
+	r.Unsupported, r.Violations, r.Reached, r.Notes, r.Params = ex.Unsupp, ex.Violations, ex.Reached, ex.Notes, ex.params
+	r.Stopped = ex.stopped
+	for f := range ex.Funcs {
+		r.Funcs = append(r.Funcs, f)
+	}
+	sort.Strings(r.Funcs)
+	r.Replaced = ld.replSrc
+	if sol.Errors > 0 {
+		if r.Unsupported == nil {
+			r.Unsupported = map[string]int{}
+		}
+		r.Unsupported["solver reported an error: "+sol.LastErr] = sol.Errors
+	}
+	return
+}
+
+func printResult(r JobResult) {
+	fmt.Printf("== %s[%d]: paths=%d %v forks=%d instrs=%d maxVisit=%d unwindHit=%d queries=%d (sat %d unsat %d unknown %d, presolved %d) solver=%.2fs wall=%.2fs\n",
+		r.Entry, r.Split, r.Paths, r.PathEnds, r.Forks, r.Instrs, r.MaxVisit, r.UnwindHit, r.Queries, r.Sat, r.Unsat, r.Unknown, r.PreHits, r.SolverSecs, r.WallSecs)
+	if r.Fatal != "" {
+		fmt.Println("   FATAL:", r.Fatal)
+	}
+	var ks []string
+	for k := range r.Unsupported {
+		ks = append(ks, k)
+	}
+	sort.Strings(ks)
+	for _, k := range ks {
+		fmt.Printf("   UNSUPPORTED x%d: %s\n", r.Unsupported[k], k)
+	}
+	for _, v := range r.Violations {
+		fmt.Printf("   VIOLATION %s: %s at %s\n      site: %s\n      model: %s\n", v.Kind, v.Msg, v.Where, v.Site, modelString(v.Model))
+	}
+	ks = ks[:0]
+	for k := range r.Notes {
+		ks = append(ks, k)
+	}
+	sort.Strings(ks)
+	for _, k := range ks {
+		fmt.Printf("   note x%d: %s\n", r.Notes[k], k)
+	}
+	fmt.Printf("   reached: %v\n", r.Reached)
+}
+
+func modelString(m []NondetVal) string {
+	var parts []string
+	for _, n := range m {
+		switch n.Kind {
+		case "bytes":
+			b := n.Bytes
+			if len(b) > 160 {
+				b = b[:160] + "…"
+			}
+			parts = append(parts, fmt.Sprintf("%s(len %d)=%s", n.Fn, n.Len, b))
+		default:
+			parts = append(parts, fmt.Sprintf("%s=%d", n.Fn, n.Val))
+		}
+	}
+	return strings.Join(parts, " ")
 }
